@@ -445,8 +445,8 @@ pub fn run_c16(ctx: &Ctx, sink: &mut Sink) {
 
 fn gen_numbers(r: &mut Rng) -> (Vec<f64>, &'static str) {
     let n = 1 + r.below(50);
-    let regime = r.below(7);
-    let name = ["small-integers", "dyadic", "decimal-fractions", "mixed-magnitudes", "with-infinities", "duplicates", "tiny-and-huge"][regime];
+    let regime = r.below(8);
+    let name = ["small-integers", "dyadic", "decimal-fractions", "mixed-magnitudes", "with-infinities", "duplicates", "tiny-and-huge", "overflowing"][regime];
     let v = (0..n)
         .map(|_| match regime {
             0 => r.range(-100, 100) as f64,
@@ -459,6 +459,8 @@ fn gen_numbers(r: &mut Rng) -> (Vec<f64>, &'static str) {
                 _ => r.range(-50, 50) as f64,
             },
             5 => *r.pick(&[1.0, 2.0, 2.0, 3.5, -1.0, 0.0, -0.0, 7.0]),
+            // magnitudes round 1e308: partial sums overflow to an infinity (and may come back to NaN)
+            7 => (r.unit() + 0.5) * 1e308 * if r.chance(1, 3) { -1.0 } else { 1.0 } * if r.chance(1, 4) { 1e-3 } else { 1.0 },
             _ => (r.unit() + 0.5) * 10f64.powi(*r.pick(&[-300, -150, -20, 0, 20, 150, 290])) * if r.chance(1, 3) { -1.0 } else { 1.0 },
         })
         .collect();
